@@ -39,6 +39,10 @@ Definition SIG_VNC_QUEUE := 15%N.
    accepts the connection and then neither sends nor closes waits for ever (scenario 17) *)
 Definition SIG_FTP_ACTIVE_NO_DEADLINE := 16%N.
 
+(* ssh-simulator: the shell's line editor spins on a key sequence that fills its 256-byte input
+   buffer (scenario 4: shell, ESC + 255 bytes without a final letter) *)
+Definition SIG_SSH_KEYSEQ := 18%N.
+
 Definition all_back (k : case) : bool := forallb (fun o => (w_out o <? 2)%N) (w_obs k).
 
 Fixpoint lists_eqb (a b : list (list bytes)) : bool :=
@@ -75,6 +79,7 @@ Definition case_sigs (k : case) : list N :=
       if (2 <=? w_out o)%N then
         [if (w_out o =? 3)%N && (w_svc k =? 1)%N && (w_scenario k =? 5)%N then SIG_VNC_QUEUE
          else if (w_out o =? 3)%N && ((w_svc k =? 4) || (w_svc k =? 5))%N && (w_scenario k =? 17)%N then SIG_FTP_ACTIVE_NO_DEADLINE
+         else if (w_out o =? 2)%N && (w_svc k =? 2)%N && (w_scenario k =? 4)%N then SIG_SSH_KEYSEQ
          else SIG_NO_RETURN]
       else (if w_gor o =? 0 then [] else [SIG_GOROUTINES]) ++
            (if w_lis o =? 0 then [] else [SIG_LISTENERS]) ++
